@@ -76,18 +76,25 @@ TIE_FUNCS = {
                               "LeanString.try_pop", "LeanString.try_push_str", "LeanString.try_remove", "LeanString.try_insert",
                               "LeanString.try_insert_str", "LeanString.try_truncate", "LeanString.capacity", "LeanString.len",
                               "LeanString.is_heap_allocated"],
+    "LSProofs.Gen.CloneDrop": ["LeanString.clone", "LeanString.clone_from", "LeanString.drop", "Repr.make_shallow_clone",
+                               "Repr.replace_inner", "Repr.new"],
+    "LSProofs.Gen.StepG": ["Repr.new", "Repr.from_str", "Repr.with_capacity", "Repr.replace_inner", "Repr.set_len", "Repr.truncate_unchecked",
+                           "Repr.truncate", "Repr.make_shallow_clone", "Repr.reserve", "Repr.shrink_to", "Repr.ensure_modifiable",
+                           "Repr.push_str", "Repr.insert_str", "Repr.remove", "Repr.pop", "Repr.is_unique", "LeanString.clear",
+                           "LeanString.clone", "LeanString.clone_from", "LeanString.drop"],
+    "LSProofs.Props.C01G": [],
     "LSProofs.Gen.Good": ["Repr.push_str", "Repr.insert_str", "Repr.pop", "Repr.remove", "Repr.reserve", "Repr.ensure_modifiable",
                           "Repr.shrink_to", "Repr.set_len", "Repr.truncate_unchecked", "Repr.replace_inner", "Repr.from_str",
                           "Repr.make_shallow_clone"],
 }
 TIES = {
-    "C01": T("Ctor", "Readers", "Release", "SetLen", "Reserve", "Ensure", "Shrink", "Clone", "Clear", "PushStr", "InsertStr", "PopRemove", "Good", "Wrappers"),
-    "C02": T("Reserve", "Ensure", "Shrink", "Clear", "SetLen"),
-    "C03": T("Release", "Clone", "Reserve", "Ensure", "Shrink"),
+    "C01": T("Ctor", "Readers", "Release", "SetLen", "Reserve", "Ensure", "Shrink", "Clone", "Clear", "PushStr", "InsertStr", "PopRemove", "Good", "Wrappers", "CloneDrop", "StepG") + ["LSProofs.Props.C01G"],
+    "C02": T("Reserve", "Ensure", "Shrink", "Clear", "SetLen", "StepG"),
+    "C03": T("Release", "Clone", "CloneDrop", "Reserve", "Ensure", "Shrink", "StepG"),
     "C05": T("Reserve", "Ensure", "Shrink", "SetLen", "Ctor", "PushStr", "InsertStr", "PopRemove", "Wrappers"),
     "C06": T("Reserve", "Shrink", "Ctor"),
     "C07": T("SetLen", "InsertStr", "PopRemove"),
-    "C08": T("Clone"),
+    "C08": T("Clone", "CloneDrop"),
     "C09": T("Ctor", "Reserve", "PushStr", "InsertStr", "PopRemove", "Wrappers"),
     "C10": T("Ctor", "Reserve", "Ensure", "Clear", "SetLen"),
     "C11": T("Readers", "Ctor", "Reserve", "PushStr", "InsertStr", "Wrappers"),
